@@ -1,4 +1,6 @@
 import Orca.Lemmas.Iter
+import Orca.Gen.ApiOutline
+import Orca.Model.ApiOutlineSpec
 /-!
 # C25 — the module iterator visits every instruction exactly once, in order
 
@@ -130,3 +132,11 @@ example : (ModIt.new [(0, 2), (1, 2)] [1]).trace 4 = [(0, 0, false), (0, 1, true
 example : AllNonEmpty [(0, 3), (1, 2), (2, 1)] := by intro p hp; simp at hp; rcases hp with rfl | rfl | rfl <;> simp
 
 end Orca.Iter
+
+/-- **The tie to the source (regenerated on every run).** The control-and-call skeletons of the functions this property rests on:
+    `ModuleSubIterator::next` / `handle_skips` are what M7 was transcribed from. A step moved, an early exit, guard, call or assignment added or removed breaks this obligation; renaming, comments and
+    formatting do not. -/
+theorem c25_subiterator_code_reviewed :
+    Orca.Gen.ApiOutline.module_subiterator_next = Orca.ApiOutlineSpec.module_subiterator_next
+    ∧ Orca.Gen.ApiOutline.module_subiterator_handle_skips = Orca.ApiOutlineSpec.module_subiterator_handle_skips :=
+  ⟨rfl, rfl⟩
